@@ -12,6 +12,32 @@ SEEDS = {
              "and sign repair before a time-reversed measurement",
              "a disconnected target without isolated vertices whose components are contiguous in the emission order and that "
              "needs exactly one emitter (smallest: two Bell pairs); connected graphs and 2-emitter targets are unaffected"),
+ "S-C04-3": ("C04", "EvolutionarySolver.remove_op(circuit, node=...) protects operations whose CLASS is in SolverBase.fixed_ops "
+             "(Input / Output) instead of operations carrying the 'Fixed' label", "the caller-chosen form of the remove move "
+             "(node= argument) on an emission CNOT or an initial measure-and-reset; the random form is unchanged"),
+ "S-C06-3": ("C06", "MixedStabilizer.reduce() rescales the reduced mixture to total weight 1 ('round-off guard')",
+             "stabilizer backend, a photon loss of strength < 1 followed LATER in the circuit by any depolarizing event "
+             "(reduce is only called there): the mixture forgets the loss, weight 1 instead of the survival probability"),
+ "S-C09-3": ("C09", "is_lc_equivalent (deterministic) adds basis vectors in place while iterating over combinations() of the basis "
+             "array: the candidates become running sums", "solution space of dimension >= 5 with no valid Clifford among the "
+             "running sums: first at 6 vertices, about 0.3 % of equivalent connected pairs - false 'no', never wrong gates"),
+ "S-C10-3": ("C10", "graph_to_circ memoises its circuit per adjacency matrix and hands out the cached OBJECT on a miss",
+             "state left over from an earlier solve() in the same process: the solver appends LC-conversion gates to the "
+             "cached circuit in place (n_lc_graphs >= 2), a later request gets them twice"),
+ "S-C12-3": ("C12", "_insert_at takes register and edge key from the operation's register list by POSITION instead of from the "
+             "edge being split", "insert_at of a two-qubit operation whose edge list is not in (control, target) order: the "
+             "new edges carry the other wire's key, no wire is a single path"),
+ "S-C13-3": ("C13", "_slim_seq lists the operations in node insertion order instead of topological order",
+             "a circuit with nodes created in the middle (unwrap_nodes / group_one_qubit_gates / insert_at) and THEN "
+             "assign_noise or the Monte-Carlo noisy copy: the copy replays the gates in the wrong order"),
+ "S-C14-3": ("C14", "to_json lists the operations sorted by node id (creation order)", "a circuit with an operation inserted in "
+             "the middle of a wire (insert_at, unwrap, group) exported through JSON: the imported circuit has another order"),
+ "S-C17-3": ("C17", "DensityMatrix.partial_trace gets a 'leading block' fast path that tests only keep[0] == 0 and "
+             "keep[-1] == len(keep) - 1", "the state-object API (not dmf.partial_trace) with an UNSORTED keep list whose "
+             "end points look like a prefix ([0, 3, 2] on 4 qubits): reduced state of the wrong qubits"),
+ "S-C18-3": ("C18", "same change as S-C12-1 / S-C15-2 (replace_op files the node under the new class name), found independently for C18",
+             "replace_op with a gate of another class, then a count / depth metric: CNOT replaced by CZ still counted, an "
+             "Identity replaced by a Hadamard removed by the metric's remove_identity"),
  "S-C01-2": ("C01", "transformation.y_gate rewritten as one sign update with (x | z) instead of (x ^ z)", "a SigmaY gate (plain or in a "
              "wrapper) on a qubit on which a stabilizer generator has a Y (H, P, Y on one qubit): the stabilizer backend's state "
              "is orthogonal to the circuit's state, the density-matrix backend is right"),
@@ -124,7 +150,13 @@ SEEDS = {
              "differs from its library representative by a phase with negative real part: simplify_local_clifford raises"),
 }
 STRENGTHENED = {
- "S-C06-1": "grid extended by the endpoint p = 1", "S-C13-2": "noise maps with the control noise before and the target noise after the gate; noisy copies compiled repeatedly",
+ "S-C06-1": "grid extended by the endpoint p = 1", "S-C04-3": "the caller-chosen remove_op(node=...) on any operation node",
+ "S-C09-3": "~1,000 equivalent pairs at 6-7 vertices, equivalence certified by a complementation sequence TLC replays (lc_decide_cert)",
+ "S-C12-3": "edge list of a two-qubit insert_at in either order",
+ "S-C14-3": "circuits edited after construction (insert_at / unwrap / group) - also used by C01",
+ "S-C17-3": "state-object partial traces on 3-4 qubits in every listing order of the kept qubits",
+ "S-C18-3": "cross-class replace_op edits in the edit-then-measure histories",
+ "S-C13-2": "noise maps with the control noise before and the target noise after the gate; noisy copies compiled repeatedly",
  "S-C14-2": "wrapper words the library never builds (one gate repeated, identity padding) - used by every circuit-level check",
  "S-C15-2": "circuit families built through Identity placeholders and replace_op",
  "S-C16-2": "isomorph requests close to n! / |Aut|",
